@@ -1,6 +1,44 @@
 import DriverOps.Common
-/- driver ops with prefix "cp." (owned by the Copy model) -/
+/- driver ops with prefix "cp." (owned by the Copy model)
+  cp.item    {"item":[orig,session,unit,value,descr], "data": str|null, "curve": bool, "old": bool}
+             -> [orig,session,unit,value,descr,data|null,curve]       (rebuildItem (reduceItem o); "old": reduceItemOld)
+  cp.section {"path":"pickle01"|"pickle2plus"|"deepcopy"|"deepcopy_old", "tr":bool, "items":[[orig,session,unit,value,descr],…]}
+             -> {"tr":bool, "items":[[orig,session,unit,value,descr],…]}
+-/
 open Lean Lasio
 
-def handleCopy (op : String) (j : Json) : Except String Json :=
-  throw s!"op {op} not implemented"
+def cpItemOfJson (j : Json) : Except String Item := do
+  let a ← arr j
+  if a.size < 5 then throw "item: 5 fields expected"
+  pure ⟨← getS a[0]!, ← getS a[1]!, ← getS a[2]!, ← getS a[3]!, ← getS a[4]!⟩
+
+def cpItemJson (it : Item) : Json :=
+  Json.arr #[jstr it.orig, jstr it.session, jstr it.unit, jstr it.value, jstr it.descr]
+
+def handleCopy (op : String) (j : Json) : Except String Json := do
+  match op with
+  | "cp.item" =>
+    let it ← cpItemOfJson (← fld j "item")
+    let dj ← fld j "data"
+    let data ← (match dj with
+      | .null => pure none
+      | d => do pure (some (← getS d)) : Except String (Option Str))
+    let curve ← (← fld j "curve").getBool?
+    let old ← (← fld j "old").getBool?
+    let o : PyItem := ⟨it, data, curve⟩
+    let r := rebuildItem (if old then reduceItemOld o else reduceItem o)
+    pure (Json.arr #[jstr r.it.orig, jstr r.it.session, jstr r.it.unit, jstr r.it.value, jstr r.it.descr,
+      (match r.data with | some d => jstr d | none => Json.null), Json.bool r.isCurve])
+  | "cp.section" =>
+    let path ← (← fld j "path").getStr?
+    let tr ← (← fld j "tr").getBool?
+    let items ← getList cpItemOfJson (← fld j "items")
+    let s : Section := ⟨items, tr⟩
+    let r ← (match path with
+      | "pickle01" => pure (rebuildSection .pickle01 s)
+      | "pickle2plus" => pure (rebuildSection .pickle2plus s)
+      | "deepcopy" => pure (rebuildSection .deepcopy s)
+      | "deepcopy_old" => pure (rebuildSectionOld s)
+      | p => throw s!"unknown path {p}" : Except String Section)
+    pure (Json.mkObj [("tr", Json.bool r.tr), ("items", jlist cpItemJson r.items)])
+  | _ => throw s!"op {op} not implemented"
